@@ -475,7 +475,15 @@ func sweepInputs(c *Ctx) []buildInput {
 	// random and mutated templates, multi file sets, programs
 	for i := 0; i < c.N; i++ {
 		fm := r.Intn(6)
-		switch r.Intn(12) {
+		switch r.Intn(13) {
+		case 12:
+			s := cutTemplate(r)
+			if r.Intn(2) == 0 {
+				s = mutate(r, s)
+			}
+			in := tmplInput("index"+extOfFormat[fm], s, false)
+			in.Files["p.txt"] = Hx("P")
+			ins = append(ins, in)
 		case 0, 1, 2, 3:
 			ins = append(ins, tmplInput("index"+extOfFormat[fm], randTemplate(r, fm, 16), r.Intn(12) == 0))
 		case 4, 5, 6:
